@@ -292,6 +292,23 @@ func (ev *EvalCtx) evalIdent(name string) TV {
 		return tv
 	}
 	if ev.fr != nil {
+		// function-local ghost variable of the enclosing contract
+		for f := ev.fr; f != nil; f = f.parent {
+			if f.spec != nil {
+				for _, c := range f.spec.ClausesOf("ghostvar") {
+					if n, so := parseGhostVar(c); n == name {
+						tv := TV{V: scalar(fc.ghost(ev.cur, "gv:"+name, so))}
+						if so == SIface {
+							tv.T = types.NewInterfaceType(nil, nil)
+						}
+						return tv
+					}
+				}
+			}
+			if f.fn.Parent() == nil {
+				break
+			}
+		}
 		if v, t, ok := ev.fr.localByName(name, ev.at, ev.cur); ok {
 			return TV{V: v, T: t}
 		}
@@ -762,6 +779,19 @@ func (ev *EvalCtx) evalCall(e ECall) TV {
 		tag := fc.eng.ti.TagOf(t)
 		fc.concreteTags[tag] = t
 		return TV{V: scalar(Eq(ITag(x.V.T), IntLit(int64(tag))))}
+	case "implements":
+		// implements(x, "I"): x is a non-nil interface value whose dynamic type implements interface I
+		argn(2)
+		x := ev.eval(e.Args[0])
+		s, ok := e.Args[1].(EStr)
+		if !ok {
+			ev.fail("implements needs a type string")
+		}
+		t := ev.resolveType(s.V)
+		if _, isI := t.Underlying().(*types.Interface); !isI {
+			ev.fail("implements: %s is not an interface type", s.V)
+		}
+		return TV{V: scalar(And(Ne(ITag(x.V.T), IntLit(0)), app(SBool, fc.implPred(t), ITag(x.V.T))))}
 	case "nilptr":
 		// nilptr(v): interface v holds a nil pointer (of any pointer type)
 		argn(1)
